@@ -303,7 +303,8 @@ func (a *ltAnalysis) walk(n ast.Node) {
 							}
 						} else {
 							for _, c := range cs {
-								a.segs = append(a.segs, ltSeg{c.mode, c.access, true})
+								// a helper that takes no lock itself is part of this method's own accesses
+								a.segs = append(a.segs, ltSeg{c.mode, c.access, c.mode != "none"})
 							}
 							a.segs = append(a.segs, ltSeg{a.mode, 0, false})
 						}
@@ -436,6 +437,19 @@ func ltTable(file, typ string, immutable []string) (map[string]string, error) {
 	// pass 2: including the critical sections of the receiver's own methods it calls
 	out := map[string]string{}
 	for _, fd := range methods {
+		// an unexported helper that takes no lock itself (it relies on its callers' lock) is
+		// accounted for at its call sites, where its accesses are inlined
+		if !ast.IsExported(fd.Name.Name) && len(direct[fd.Name.Name]) > 0 {
+			lockFree := true
+			for _, sg := range direct[fd.Name.Name] {
+				if sg.mode != "none" {
+					lockFree = false
+				}
+			}
+			if lockFree {
+				continue
+			}
+		}
 		a, segs := analyse(fd, recvOf[fd], direct)
 		var own []ltSeg
 		for _, s := range segs {
